@@ -25,7 +25,10 @@ META = dict(
          "with one call per limiter failing late, exactly at the model's critical point). A further family runs without the "
          "coin override (real breaker, real coin) on a healthy Redis: drained bucket / exhausted window, then hundreds of "
          "further requests at frozen clocks - every request must still reach Redis and be decided as the model says "
-         "(denials and OverQuota codes are not breaker failures).",
+         "(denials and OverQuota codes are not breaker failures). A concurrent-use stage built with the race detector puts "
+         "many goroutines on one limiter at frozen clocks (requests for burst+1 tokens and with cancelled contexts must "
+         "never be granted, tokens granted within the second <= burst; per key exactly quota-1 Allowed, one HitQuota); a "
+         "race report is the disagreement C08:data-race.",
     note="Trusted: TLC, miniredis 2.23.1 (Lua via gopher-lua, TTL by FastForward) as the Redis environment, the "
          "driver's barrier (after Up it waits, bounded, for the monitor's ping, reading redisAlive/monitorStarted "
          "only as a barrier; the concurrent stage watches redisAlive to place one late failure - a direct call of the "
@@ -98,6 +101,68 @@ def real_breaker(ctx, binp):
     ctx.replay(PKG, OVERLAY, "^TestVerifC08Period$", path, label="pdrain", shards=3, binp=binp, env=dict(VERIF_REAL_BREAKER=1))
 
 
+def two_outages(ctx, binp):
+    """Two outages within one caller second: the rescue bucket drained in the first outage must still be drained
+    in the second one (recovery through the monitor's ping in between)."""
+    import json
+    cases = gen_token(ctx, "t2o", configs="{<<1,2>>}", maxlen=8, maxn=2, maxstep=0, maxdown=2)
+    sel = []
+    for c in cases:
+        st = json.loads(c)
+        downs = [i for i, x in enumerate(st) if x["op"] == "down"]
+        if len(downs) < 2:
+            continue
+        a1 = [x for x in st[downs[0]:downs[1]] if x["op"] == "allow" and x["via"] == "rescue"]
+        a2 = [x for x in st[downs[1]:] if x["op"] == "allow" and x["via"] == "rescue"]
+        ping = [x for x in st[downs[0]:downs[1]] if x["op"] == "up" and x["ping"]]
+        if a1 and a2 and ping and any(x["granted"] for x in a1) and any(not x["granted"] for x in a2):
+            sel.append(c)
+    want = 48 if ctx.quick else 400
+    sel = sel[::max(1, len(sel) // want)][:want]          # a selection of inputs, the predictions stay TLC's
+    if len(sel) < 10:
+        raise core.Infra("two-outage family is nearly empty (%d)" % len(sel))
+    path, _ = ctx.write_cases("t2o.ndjson", sel)
+    ctx.replay(PKG, OVERLAY, "^TestVerifC08Token$", path, label="t2o", shards=16, binp=binp)
+
+
+def race_stage(ctx, binp_race):
+    """Concurrent callers on one limiter, binary built with -race.  Run outside ctx.replay because a race report
+    makes the test binary exit non-zero; the report itself is the disagreement C08:data-race."""
+    import json, subprocess, os
+    big = not ctx.quick
+    cfgs = [dict(kind="token", rate=5, burst=10, ones=10, twos=3, cancelled=2, calls=(600 if big else 250), rounds=(6 if big else 3)),
+            dict(kind="token", rate=1, burst=1, ones=8, twos=2, cancelled=1, calls=(400 if big else 150), rounds=(4 if big else 2)),
+            dict(kind="period", quota=5, period=3600, keys=4, takers=6, calls=(300 if big else 120), rounds=(4 if big else 2)),
+            dict(kind="period", quota=1, period=3600, keys=2, takers=8, calls=(200 if big else 80), rounds=(3 if big else 2))]
+    path, _ = ctx.write_cases("race.ndjson", cfgs)
+    outp = os.path.join(ctx.build, "verdicts-race-0.ndjson")
+    logp = os.path.join(ctx.build, "race-0.out")
+    e = dict(os.environ)
+    e.update(core.GOENV)
+    e.update(VERIF_SEED=str(ctx.seed), VERIF_TIER=ctx.tier, VERIF_CASES=path, VERIF_OUT=outp, VERIF_SHARD="0", VERIF_SHARDS="1",
+             GORACE="halt_on_error=0")
+    import time
+    t0 = time.time()
+    with open(logp, "w") as fo:
+        try:
+            p = subprocess.run([binp_race, "-test.run", "^TestVerifC08Race$", "-test.count=1", "-test.timeout", "900s"],
+                               cwd=os.path.join(core.REPO, "lib/limit"), env=e, stdout=fo, stderr=subprocess.STDOUT, timeout=1000)
+            rc = p.returncode
+        except subprocess.TimeoutExpired:
+            raise core.Infra("race stage timed out")
+    out = open(logp, errors="replace").read()
+    core.log("race stage: rc=%s %.1fs" % (rc, time.time() - t0))
+    raced = "WARNING: DATA RACE" in out
+    if raced:
+        i = out.index("WARNING: DATA RACE")
+        rep = out[i:i + 2500]
+        frames = [l.strip() for l in rep.splitlines() if "/lib/limit/" in l or "/lib/store/" in l][:6]
+        ctx.disagree("C08:data-race", "race detector: concurrent callers on one limiter; frames: %s" % "; ".join(frames),
+                     case=json.dumps(cfgs[0]), source="race")
+    ctx.collect(outp, 0 if raced else rc, out, path, "race", "race")
+    ctx.go_runs.append(dict(name="race", pkg=PKG, run="^TestVerifC08Race$", race=True, rc=rc, wall_s=round(time.time() - t0, 2)))
+
+
 def concurrent(ctx, binp):
     cfgs = [dict(rounds=(25 if ctx.quick else 80), limiters=8, k=3)]
     path, _ = ctx.write_cases("concurrent.ndjson", cfgs)
@@ -133,6 +198,9 @@ def one_per_prefix(cases):
 
 
 def run(ctx):
+    from concurrent.futures import ThreadPoolExecutor
+    ex = ThreadPoolExecutor(1)
+    race_build = ex.submit(lambda: ctx.go_build(PKG, OVERLAY, race=True, name="c08race"))   # ~20 s, in the background
     mc(ctx)
     mc_monitor(ctx)
     binp = ctx.go_build(PKG, OVERLAY, name="c08drv")
@@ -175,7 +243,9 @@ def run(ctx):
         ctx.replay(PKG, OVERLAY, "^TestVerifC08Token$", path, label=name, shards=16, binp=binp)
     align(ctx, binp)
     real_breaker(ctx, binp)
+    two_outages(ctx, binp)
     concurrent(ctx, binp)
+    race_stage(ctx, race_build.result())
 
 
 def align(ctx, binp):
@@ -191,6 +261,8 @@ def align(ctx, binp):
 def replay(ctx, rp):
     path, _ = ctx.write_cases("replay.ndjson", [rp["case"]])
     key = rp.get("key") or ""
+    if key.startswith("C08:data-race") or ":concurrent:" in key:
+        return race_stage(ctx, ctx.go_build(PKG, OVERLAY, race=True, name="c08race"))
     if key.startswith("C08:token:no-return:concurrent"):
         return concurrent(ctx, ctx.go_build(PKG, OVERLAY, name="c08drv"))
     if key.startswith("C08:period:align"):
